@@ -649,3 +649,112 @@ def c07_8(run):
     if not n:
         raise Inconclusive('vacuity')
     run.require_reached(*run.cur.reach)
+
+
+# ----------------------------------------------------------------------------------------------------------------- C07-9
+@obligation('C07', 'C07-9 get_filtered_sequencer_block (gRPC): every served piece is read under the hash of the requested height; the served rollup data are exactly the requested rollups that have data in that block (nothing for other rollups); all_rollup_ids is the block\'s full id list, sorted')
+def c07_9(run):
+    R = re.compile
+    cfg = {}
+    bh = z3.BitVec('block_hash_of_height', 256)
+
+    def by_hash(name, mk, kind='Result'):
+        def h(ctx):
+            st = ctx.st
+            key = ctx.ex.deref_val(st, ctx.args[1])
+            extra = tuple(ctx.ex.deref_val(st, a) for a in ctx.args[2:])
+            st.log.append((name, key) + extra)
+            okv = z3.Bool(f'{name}_ok_{sum(1 for e in st.log if e[0] == name)}')
+            return [(None, M.thunk_future(lambda ex, s2, fut: [(okv, (lambda s3: ok(mk(ctx, s3, extra)))), (z3.Not(okv), (lambda s3: err()))]))]
+        return h
+
+    def tagged(ty, tag):
+        def mk(ctx, s, extra):
+            o = Obj(ty, kind='opaque'); o.attrs['ident'] = tag; return o
+        return mk
+
+    def mk_data(ctx, s, extra):
+        o = Obj('RollupTransactions', kind='opaque'); o.attrs['ident'] = ('data_of', extra[0]); return o
+
+    def h_height(ctx):
+        okv = z3.Bool('height_read_ok')
+        return [(None, M.thunk_future(lambda ex, s2, fut: [(okv, ok(z3.BitVec('current_height', 64))), (z3.Not(okv), (lambda s3: err()))]))]
+
+    def h_hash_by_height(ctx):
+        hgt = ctx.ex.deref_val(ctx.st, ctx.args[1])
+        ctx.st.log.append(('hash_by_height', hgt))
+        okv = z3.Bool('hash_read_ok')
+        return [(None, M.thunk_future(lambda ex, s2, fut: [(okv, ok(bh)), (z3.Not(okv), (lambda s3: err()))]))]
+    ident = lambda ctx: [(None, ctx.ex.deref_val(ctx.st, ctx.args[0]))]
+    hooks = [
+        (R(r'Storage::latest_snapshot$'), lambda ctx: [(None, Obj('Snapshot', kind='opaque'))]),
+        (R(r'StateReadExt>::get_block_height$'), h_height), (R(r'StateReadExt>::get_block_hash_by_height$'), h_hash_by_height),
+        (R(r'StateReadExt>::get_sequencer_block_header_by_hash$'), by_hash('header', tagged('SequencerBlockHeader', 'header'))),
+        (R(r'StateReadExt>::get_rollup_transactions_proof_by_block_hash$'), by_hash('tx_proof', tagged('Proof', 'tx_proof'))),
+        (R(r'StateReadExt>::get_rollup_ids_proof_by_block_hash$'), by_hash('ids_proof', tagged('Proof', 'ids_proof'))),
+        (R(r'StateReadExt>::get_upgrade_change_hashes$'), by_hash('upgrade_hashes', lambda c, s, e: M.new_vec('Vec<ChangeHash>', []))),
+        (R(r'StateReadExt>::get_extended_commit_info_with_proof$'), by_hash('eci', lambda c, s, e: none())),
+        (R(r'StateReadExt>::get_rollup_ids_by_block_hash$'), by_hash('all_ids', lambda c, s, e: M.new_vec('Vec<RollupId>', list(cfg['block_ids'])))),
+        (R(r'StateReadExt>::get_rollup_data$'), by_hash('rollup_data', mk_data)),
+        (R(r'^(tonic::)?Request::<.*>::into_inner$'), lambda ctx: [(None, ctx.ex.deref_val(ctx.st, ctx.args[0]).attrs['inner'])]),
+        (R(r'^(tonic::)?Response::<.*>::new$'), lambda ctx: [(None, ctx.args[0])]),
+        (R(r'RollupId::try_from_raw_ref$'), lambda ctx: [(None, ok(ctx.ex.deref_val(ctx.st, ctx.args[0]).attrs['id']))]),
+        (R(r'RollupId::into_raw$'), lambda ctx: [(None, ctx.args[0])]),
+        (R(r'(RollupTransactions|SequencerBlockHeader|Proof|ExtendedCommitInfoWithProof)::into_raw$|merkle::.*::into_raw$'), ident),
+        (R(r'Bytes::copy_from_slice$'), lambda ctx: [(None, ctx.ex.deref_val(ctx.st, ctx.args[0]))]),
+        (R(r'block::Hash::as_bytes$|Hash::as_bytes$'), lambda ctx: [(None, ctx.ex.deref_val(ctx.st, ctx.args[0]))]),
+        (R(r'^(tonic::)?Status::(internal|invalid_argument)'), lambda ctx: [(None, Obj('tonic::Status', kind='error'))]),
+    ]
+    sc = {'astria_core::primitive::v1::RollupId': 256, 'primitive::v1::RollupId': 256, 'RollupId': 256, 'sequencerblock::v1::block::Hash': 256, 'block::Hash': 256, 'astria_core::sequencerblock::v1::block::Hash': 256}
+    ex = loader.load(['astria-sequencer', 'astria-core'], scalar_types=sc, hooks=hooks, dep_adts=['tendermint'])
+    cands = [n for n in ex.fns if n.endswith('::get_filtered_sequencer_block') and 'closure' not in n]
+    if len(cands) != 1:
+        raise Inconclusive(f'get_filtered_sequencer_block not found: {cands}')
+    run.bound(request='0..2 requested rollup ids (duplicates allowed), block with 0..2 rollup ids, all symbolic', storage='every state read is an oracle that may fail; what is decided is the key each read uses and how the pieces are put together')
+    n_ok = 0
+    for nreq in (0, 1, 2):
+        for nblk in (0, 1, 2):
+            req_ids = [z3.BitVec(f'requested_{i}', 256) for i in range(nreq)]
+            blk_ids = [z3.BitVec(f'in_block_{i}', 256) for i in range(nblk)]
+            cfg['block_ids'] = blk_ids
+            raws = []
+            for r_ in req_ids:
+                o = Obj('astria_core::generated::astria::primitive::v1::RollupId', kind='opaque'); o.attrs['id'] = r_; raws.append(o)
+            inner = B.struct(ex, 'astria_core::generated::astria::sequencerblock::v1::GetFilteredSequencerBlockRequest', height=z3.BitVec('requested_height', 64), rollup_ids=M.new_vec('Vec<RollupId>', raws))
+            rq = Obj('tonic::Request', kind='opaque'); rq.attrs['inner'] = inner
+            me = Obj('Arc<SequencerServer>', kind='arc'); me.fields[('in', 0)] = Obj('SequencerServer')
+            st = ex.start(cands[0], [me, rq])
+            if nblk == 2:
+                st.pc.append(blk_ids[0] != blk_ids[1])
+            for pi, p in enumerate(run.explore(ex, st, poll=True, allow_havoc=(r'^Arguments::|fmt::',))):
+                lab = f'[{nreq} requested, {nblk} in block, path {pi}]'
+                if p.kind != 'return':
+                    run.prove(f'no panic {lab}', p.pc, z3.BoolVal(False), detail=p.info); continue
+                kind, r = A.poll_result(p)
+                reads = [e for e in p.log if e[0] not in ('hash_by_height',)]
+                run.sample({'requested': nreq, 'in_block': nblk, 'path': pi, 'result': kind, 'reads': [e[0] for e in p.log]})
+                hb = [e for e in p.log if e[0] == 'hash_by_height']
+                claims = [z3.BoolVal(len(hb) <= 1)] + [e[1] == z3.BitVec('requested_height', 64) for e in hb] + [e[1] == bh for e in reads]
+                run.prove(f'the block hash is looked up for the requested height and every piece is read under that hash {lab}', p.pc, z3.And(*claims))
+                if kind != 'Ok':
+                    continue
+                n_ok += 1
+                blk = ex.deref_val(p, r.fields[('Ok', 0)])
+                served = [ex.deref_val(p, x).attrs.get('ident') for x in ex.deref_val(p, B.fld(ex, p, blk, 'rollup_transactions')).attrs['items']]
+                all_ids = [ex.deref_val(p, x) for x in ex.deref_val(p, B.fld(ex, p, blk, 'all_rollup_ids')).attrs['items']]
+                in_block = lambda x: z3.Or(*[x == b for b in blk_ids]) if blk_ids else z3.BoolVal(False)
+                c2 = [z3.ULE(z3.BitVec('requested_height', 64), z3.BitVec('current_height', 64)), z3.BoolVal(all(isinstance(s, tuple) and s[0] == 'data_of' for s in served))]
+                sids = [s[1] for s in served if isinstance(s, tuple)]
+                c2 += [in_block(s) for s in sids] + [z3.Or(*[s == q for q in req_ids]) if req_ids else z3.BoolVal(False) for s in sids]
+                for q in req_ids:
+                    c2.append(z3.Implies(in_block(q), z3.Or(*[s == q for s in sids]) if sids else z3.BoolVal(False)))
+                c2.append(z3.BoolVal(len(all_ids) == nblk))
+                c2 += [z3.Or(*[a == b for b in blk_ids]) for a in all_ids] + [z3.ULE(all_ids[i], all_ids[i + 1]) for i in range(len(all_ids) - 1)]
+                for piece, tag in (('header', 'header'), ('rollup_transactions_proof', 'tx_proof'), ('rollup_ids_proof', 'ids_proof')):
+                    o = ex.deref_val(p, B.fld(ex, p, blk, piece))
+                    c2.append(z3.BoolVal(isinstance(o, Obj) and o.discr == 'Some' and ex.deref_val(p, o.fields[('Some', 0)]).attrs.get('ident') == tag))
+                c2.append(B.fld(ex, p, blk, 'block_hash') == bh if z3.is_bv(ex.deref_val(p, B.fld(ex, p, blk, 'block_hash'))) else z3.BoolVal(False))
+                run.prove(f'served = exactly the requested rollups that have data in the block, each read for its own id; all_rollup_ids = the block\'s ids, ascending; header / proofs / hash are this block\'s {lab}', p.pc, z3.And(*c2))
+    if not n_ok:
+        raise Inconclusive('vacuity: no block served')
+    run.require_reached(*run.cur.reach)
